@@ -262,7 +262,8 @@ def gen_dir(rng, entry):
         n = 1.0
     mag = rng.choice([1.0, 1.0, None, None, "keep", "almost"])
     if mag is None:
-        d = d / n * rng.logu(1e-8, 1e4)
+        # GJK hands over its current closest-point vector as search direction: close to contact it is very short
+        d = d / n * (rng.logu(1e-8, 1e4) if rng.chance(0.7) else rng.logu(1e-14, 1e-8))
     elif mag == 1.0:
         d = d / n
     elif mag == "almost":  # nearly, but not exactly, unit length
